@@ -26,19 +26,19 @@ CHECKS = {
   "Trusted: simulated mmap (anonymous mapping ending at a PROT_NONE page), cookie streams over real glibc stdio, the model. Column-reader equivalence is on content; batch-reader equivalence on the exact batch sequence.",
   "deterministic simulation: one history replayed over three simulated transports of one disk image", "7 C03"),
  "C05": ("exploration",
-  "Every image the writer reports complete (same generator as C01) is parsed, structurally validated and fully decoded by an independent peer reader written from the format documents, and compared with the model; the same plan is written twice under different allocator contents/addresses/stdio buffering and must be byte-identical.",
-  "Trusted: the peer reader (Thrift compact, hybrid RLE, PLAIN, Snappy/LZ4 written independently; zlib/zstd system libraries; zlib crc32). Strict reading of parquet.thrift for totals and codec tags.",
+  "Every image the writer reports complete (generator of C01 plus top-level REPEATED leaves written with definition and repetition levels, unsigned-annotated integer columns, tables around the 10000-element limit, and histories with an out-of-range column index or one write_batch left out) is parsed, structurally validated and fully decoded by an independent peer reader written from the format documents, and compared with the model; the same plan is written twice under different allocator contents/addresses/stdio buffering and must be byte-identical.",
+  "Trusted: the peer reader (Thrift compact, hybrid RLE, PLAIN, Snappy/LZ4 written independently; zlib/zstd system libraries; zlib crc32). Strict reading of parquet.thrift for totals, codec tags and the column_orders rule. When a history is not a table (a batch left out) only 'close OK => the peer accepts the file' is required.",
   "deterministic simulation: writer output judged by an independent simulated peer reader; double write under allocator/stdio perturbation", "7 C05"),
  "C06": ("exploration",
   "The independent peer writer is a simulated foreign node with legal-but-unusual layout choices (buggify points); carquet reads its images through three transports with whole reads and seeded histories under random CPU caps; exact def/rep levels and values against the model; files with unimplemented features must be rejected with an error (incl. the batch reader on files with REPEATED columns: refuse, or deliver every entry).",
   "Trusted: peer writer (every file self-checked by the peer reader before carquet sees it; a mismatch is exit 2). No fault or schedule is part of this property; the simulator contributes the second party, the perturbation of I/O mode/history/CPU level, replay and shrinking.",
   "deterministic simulation: independent peer writer with buggify layout choices -> carquet reader", "7 C06"),
  "C16": ("exploration",
-  "Public-API clauses: (a) data-page statistics written by carquet's writer, parsed by the peer reader, must bound every non-NaN value of their page, carry no NaN bound and the right null count; (b) peer-written multi-row-group files whose chunk statistics are true bounds by construction are queried through column_statistics/row_group_matches/filter_row_groups with seeded operators and probes at, next to and beyond the bounds (incl. NaN, BOOLEAN columns, and columns whose logical type orders values differently from the physical type: unsigned integers, DECIMAL in fixed-length byte arrays, with peer statistics in that order), in a random transport; verdicts judged by brute force over the model (no false negative, exact filter list, no statistics => might match).",
+  "Public-API clauses: (a) data-page statistics written by carquet's writer (incl. unsigned-annotated integer columns), parsed by the peer reader, must bound every non-NaN value of their page in the column's order, carry no NaN bound and the right null count; (b) peer-written multi-row-group files whose chunk statistics are true bounds by construction are queried through column_statistics/row_group_matches/filter_row_groups with seeded operators and probes at, next to and beyond the bounds (incl. NaN, BOOLEAN columns, columns whose logical type orders values differently from the physical type: unsigned integers, DECIMAL in fixed-length byte arrays, with peer statistics in that order, and byte-array bounds present only in the deprecated signed-order fields), in a random transport; verdicts judged by brute force over the model (no false negative, exact filter list, no statistics => might match).",
   "Trusted: brute-force matcher over the model, peer writer statistics (min/max over non-NaN values, omitted when a chunk holds NaN). Not decided: the statistics builder, carquet_statistics_compare, range_overlaps, column_index_page_might_match (internal entry points no public API reaches).",
   "deterministic simulation: predicate operations on peer-written files vs brute force over the model", "7 C16"),
  "C17": ("exploration",
-  "Reader side: seeded ordered schema trees (depth <= 6, <= 60 nodes, all repetition labelings) emitted by the peer writer with data shredded under the true levels; leaf order, every accessor (incl. logical types with parameters against the parquet.thrift field ids), lookup by name and by documented dot-separated path, the root-only schema, node max-level accessors and the levels the column readers really use are compared with the textbook definition. Builder side: seeded add_column/add_group histories up to 400 steps (across capacity growth) with accessors checked after every step under a realloc-always-moves allocator, then written and read back.",
+  "Reader side: seeded ordered schema trees (depth <= 6, <= 60 nodes, all repetition labelings) emitted by the peer writer with data shredded under the true levels; leaf order, every accessor (incl. logical types with parameters against the parquet.thrift field ids, also when the file states them through the legacy converted_type only), lookup by name and by documented dot-separated path, the root-only schema (also through the batch reader), node max-level accessors and the levels the column readers really use are compared with the textbook definition. Builder side: seeded add_column/add_group histories up to 400 steps (across capacity growth) with accessors checked after every step under a realloc-always-moves allocator, then written and read back.",
   "Trusted: textbook level definition in the model, peer writer's Dremel shredding (self-checked by the peer reader). What the simulator adds beyond generation is modest (I/O mode, allocator movement, op history).",
   "deterministic simulation: peer-written nested schemas + builder op histories vs textbook definition", "7 C17"),
  "C18": ("fault_enumeration",
@@ -46,7 +46,7 @@ CHECKS = {
   "Trusted: cookie-stream sink over real glibc stdio (short count = error, probed), the peer reader as the judge of 'prefix is itself a complete file', the allocation ledger for leaks. Not exhaustive over scenarios.",
   "deterministic simulation: crash-point, sink-fault and abort-point enumeration per seeded write history", "7 C18"),
  "C19": ("fault_enumeration",
-  "Per generated scenario (schema build, write per codec in path/FILE* mode, open+metadata+reads+skip in three transports, batch reads) a dry run numbers the K tracked allocation requests made inside API calls (carquet, zlib, zstd) and request k is failed for every k, plus every fopen and ZSTD_createDCtx returning NULL; thorough tier adds seeded multi-failure runs. Oracle: error reported or effect identical to the fault-free run, correct prefix before an error, a caller that carries on after the failed call (reads on, asks for the next batch again, keeps adding columns) gets the continuation or a persistent error but never shifted, dropped or misaligned data, handles still releasable, ledger empty, no sanitizer report.",
+  "Per generated scenario (schema build, write per codec in path/FILE* mode, open+metadata+reads+skip in three transports, batch reads) a dry run numbers the K tracked allocation requests made inside API calls (carquet, zlib, zstd) and request k is failed for every k, plus every fopen and ZSTD_createDCtx returning NULL; thorough tier adds seeded multi-failure runs. Oracle: error reported or effect identical to the fault-free run, correct prefix before an error, a failed carquet_writer_create leaves nothing on disk, skip never answers a failure with 0, a caller that carries on after the failed call (reads on, asks for the next batch again, keeps adding columns) gets the continuation or a persistent error but never shifted, dropped or misaligned data, handles still releasable, ledger empty, no sanitizer report.",
   "Trusted: link-time malloc/calloc/realloc/free/strdup wrappers over ASan's allocator (ledger exact and deterministic), statically linked zlib/zstd so their requests are numbered too. Allocations of the process-lifetime per-thread ZSTD context are not fault sites.",
   "deterministic simulation: k-th allocation failure enumeration per seeded scenario with exact leak ledger", "7 C19"),
  "C14": ("fault_enumeration",
@@ -54,7 +54,7 @@ CHECKS = {
   "Trusted: peer reader's page map (body offsets, first entry per page), zlib crc32 on the peer side. The CRC function for arbitrary lengths/alignments and carquet_crc32_update composition are pure and only decided as far as the file layer computes CRCs.",
   "deterministic simulation: storage bit-rot enumeration inside every page body x 3 transports", "7 C14"),
  "C04": ("exploration",
-  "Storage corruption between a valid write and a read: structure-aware mutation of footer fields through the peer's Thrift value tree (boundary values, list surgery, retyped/dropped fields, nesting bombs), inconsistencies planted by the peer writer with coherent offsets (page type/sizes/crc/num_values/encodings/dictionary size/index bit width/level-block lengths), payload damage with verification off, lost/duplicated/misdirected blocks, truncation, garbage, plus input-stream faults (EIO, failed seek, early EOF, fopen failure; open/fstat/mmap failing on the mmap path); each image is opened through three transports and driven by a seeded history of every public reader call with exact-size caller buffers. Oracle: ASan + UBSan subset + guard-paged mapping, per-call tick budget, error contract, allocation ledger and stream/mapping registry empty after close, and (1 image in 4) a heap-garbage differential: the same history under two fill patterns of fresh heap blocks returns the same counts, levels and values.",
+  "Storage corruption between a valid write and a read: structure-aware mutation of footer fields through the peer's Thrift value tree (boundary values, list surgery, retyped/dropped fields, nesting bombs), inconsistencies planted by the peer writer with coherent offsets (page type/sizes/crc/num_values/encodings/dictionary size/index bit width/level-block lengths/levels above the column's maximum), payload damage with verification off, lost/duplicated/misdirected blocks, truncation, garbage, plus input-stream faults (EIO, failed seek, early EOF, fopen failure; open/fstat/mmap failing on the mmap path); each image is opened through three transports and driven by a seeded history of every public reader call with exact-size caller buffers. Oracle: ASan + UBSan subset + guard-paged mapping, per-call tick budget, error contract, allocation ledger and stream/mapping registry empty after close, and (1 image in 4) a heap-garbage differential: the same history under two fill patterns of fresh heap blocks returns the same counts, levels and values.",
   "Trusted: ASan/UBSan, the tick clock (basic blocks of instrumented carquet code; zlib/zstd/libc time only under the 90 s wall-clock backstop), the allocator cap (64 MiB per request, 256 MiB live) that turns huge counts into handled-or-not outcomes. Sampling of an infinite input space.",
   "deterministic simulation: storage-fault injection on valid images + seeded API histories under sanitizers and a logical-time budget", "7 C04"),
  "C07": ("exploration",
